@@ -1,6 +1,7 @@
 package phttp
 
 import (
+	"io"
 	"net/http"
 
 	"github.com/yandex/pandora/core"
@@ -36,6 +37,17 @@ func WrapGun(g Gun) core.Gun {
 }
 
 type gunWrapper struct{ Gun }
+
+var _ io.Closer = (*gunWrapper)(nil)
+
+// Close closes the wrapped gun. The engine closes the guns it created through io.Closer;
+// without this method the wrapper hides the Close of the gun it wraps.
+func (g *gunWrapper) Close() error {
+	if closer, ok := g.Gun.(io.Closer); ok {
+		return closer.Close()
+	}
+	return nil
+}
 
 func (g *gunWrapper) Shoot(ammo core.Ammo) {
 	g.Gun.Shoot(ammo.(Ammo))
